@@ -1,6 +1,7 @@
 """Virtual machine for executing JavaScript bytecode."""
 
 import math
+import sys
 import time
 from typing import Any, Callable, Dict, List, Optional, Tuple, Union
 from dataclasses import dataclass
@@ -165,6 +166,19 @@ class VM:
         # Call-stack depth at entry of every _call_callback that is running:
         # frames at or above the last entry belong to the innermost callback
         self._callback_depths: List[int] = []
+        # Script code that runs through a native function (array callbacks,
+        # accessors, valueOf, call/apply, eval, Function) nests run loops on the
+        # host's own stack, about ten Python frames per level. The levels are
+        # counted - across the nested interpreters of one evaluation, which
+        # share this one-element list - and capped well below the host's limit.
+        self.host_depth: List[int] = [0]
+        self.max_host_depth = max(8, (sys.getrecursionlimit() - 200) // 10)
+
+    def _enter_host_level(self) -> None:
+        """Account for one more run loop nested on the host stack."""
+        if self.host_depth[0] >= self.max_host_depth:
+            raise MemoryLimitError("Maximum native call depth exceeded")
+        self.host_depth[0] += 1
 
     def run(self, compiled: CompiledFunction) -> JSValue:
         """Run compiled bytecode and return result."""
@@ -181,10 +195,11 @@ class VM:
         )
         self.call_stack.append(frame)
 
+        self._enter_host_level()
         try:
             return self._execute()
-        except Exception as e:
-            raise
+        finally:
+            self.host_depth[0] -= 1
 
     def _check_limits(self) -> None:
         """Check memory and time limits."""
@@ -2466,6 +2481,7 @@ class VM:
 
             # A throw that no handler inside the callback catches must unwind
             # the native function that called us (see _throw)
+            self._enter_host_level()
             self._callback_depths.append(call_stack_len)
             try:
                 # Execute until the call returns (back to original call stack depth)
@@ -2521,6 +2537,7 @@ class VM:
                     self._run_opcode(op, arg, frame)
             finally:
                 self._callback_depths.pop()
+                self.host_depth[0] -= 1
 
             # Get result from stack
             if len(self.stack) > stack_len:
